@@ -720,6 +720,8 @@ func valueOrigins(fn *ssa.Function, v ssa.Value, f func(root ssa.Value)) {
 			for _, e := range y.Edges {
 				rec(e)
 			}
+		case *ssa.TypeAssert:
+			rec(y.X)
 		case *ssa.UnOp:
 			if y.Op == token.MUL {
 				if c := cellOf(y.X); c != nil {
